@@ -605,31 +605,3 @@ Proof.
   - destruct (in_range r 65 90); destruct (in_range r 32 126); cbn; discriminate.
 Qed.
 
-(* the two recorded findings are real: witnesses inside both_expressible *)
-Lemma cross_esc_upper_refuted :
-  let c := mkChord 97 3 in let sl := SESC [] 65 in let sk := SCSI [] [[97; 65]; [4]] 117 in
-  In c both_expressible /\ In sl (legacy_encs c) /\ In sk (kitty_encs c) /\ guard_esc_upper c = true /\
-  key_string ascii_uni (decode_key ascii_uni sl) = str "Alt+A" /\
-  key_string ascii_uni (decode_key ascii_uni sk) = str "Alt+Shift+a" /\
-  matches ascii_uni (decode_key ascii_uni sl) 97 3 = false /\
-  matches ascii_uni (decode_key ascii_uni sk) 97 3 = true.
-Proof.
-  cbv zeta. split; [|split; [|split]].
-  - apply (existsb_exists (fun x => (ch_code x =? 97) && (ch_mods x =? 3))). vm_compute. reflexivity.
-  - vm_compute. auto.
-  - vm_compute. auto 20.
-  - vm_compute. repeat split; reflexivity.
-Qed.
-
-Lemma cross_shift_noalt_refuted :
-  let c := mkChord 97 1 in let sl := SPrint [65] in let sk := SCSI [] [[97]; [2]] 117 in
-  In c both_expressible /\ In sl (legacy_encs c) /\ In sk (kitty_encs c) /\ guard_shift_noalt c sk = true /\
-  matches ascii_uni (decode_key ascii_uni sl) 65 0 = true /\
-  matches ascii_uni (decode_key ascii_uni sk) 65 0 = false.
-Proof.
-  cbv zeta. split; [|split; [|split]].
-  - apply (existsb_exists (fun x => (ch_code x =? 97) && (ch_mods x =? 1))). vm_compute. reflexivity.
-  - vm_compute. auto.
-  - vm_compute. auto 20.
-  - vm_compute. repeat split; reflexivity.
-Qed.
